@@ -1073,14 +1073,280 @@ def generate_rel(src_dir):
     """second generated file (relational operations): kept apart so that a source the translator does not understand
     here cannot take the other ties down"""
     parts, errors = [], []
-    items = [("join", lambda: translate_join(open(os.path.join(src_dir, "table.py")).read()))]
-    for name, fn in items:
-        try:
-            parts += fn()
-        except Exception as ex:
-            errors.append((name, f"{type(ex).__name__}: {ex}"))
-            parts.append(f"-- {name}: not translated ({type(ex).__name__})")
-    text = ("/- GENERATED by harness/py2lean.py from /repo's working tree — do not edit.\n"
-            "   Loops of Table.inner_join / join / full_join translated statement by statement; equivalence theorems in Serif/Tie/Join.lean. -/\n"
-            "import Serif.Model.Join\n\nnamespace Serif.Gen.TR\nopen Serif Serif.Join\n\n" + "\n\n".join(parts) + "\n\nend Serif.Gen.TR\n")
+    return _gen_file(src_dir, "join", translate_join, "Loops of Table.inner_join / join / full_join translated statement by statement; "
+                     "equivalence theorems in Serif/Tie/Join.lean.", "import Serif.Model.Join", "Serif.Gen.TR", "open Serif Serif.Join")
+
+
+def _gen_file(src_dir, name, fn, what, imports, ns, opens):
+    parts, errors = [], []
+    try:
+        parts += fn(open(os.path.join(src_dir, "table.py")).read())
+    except Exception as ex:
+        errors.append((name, f"{type(ex).__name__}: {ex}"))
+        parts.append(f"-- {name}: not translated ({type(ex).__name__})")
+    text = ("/- GENERATED by harness/py2lean.py from /repo's working tree — do not edit.\n   " + what + " -/\n"
+            + imports + f"\n\nset_option linter.unusedVariables false\n\nnamespace {ns}\n{opens}\n\n" + "\n\n".join(parts) + f"\n\nend {ns}\n")
     return text, errors
+
+
+def generate_group(src_dir):
+    """third generated file: partition loop and built-in reducers of Table.aggregate / Table.window"""
+    return _gen_file(src_dir, "group", translate_group, "Partition loop and the six built-in reducers of Table.aggregate / Table.window, "
+                     "translated; equivalence theorems in Serif/Tie/Group.lean.", "import Serif.Prelude", "Serif.Gen.TG", "open Serif")
+
+
+# ---------------------------------------------------------------------------------------------
+# Table.aggregate / Table.window: the partition loop and the six built-in reducers
+# ---------------------------------------------------------------------------------------------
+class _Reducer:
+    """One built-in reducer (`lambda vals: ...` or `def f(vals): ...`) over a group's values `vals : List (Option Int)`.
+    Typed mini-translation: int / rat / nat scalars, `List Int`, `List (Option Int)`, `Option _` results.  Python's `/` is exact
+    division in `Rat`; a final `** 0.5` (stdev) is stripped and reported — the square root is the harness's business."""
+
+    def __init__(self, where):
+        self.where = where
+        self.sqrt = False
+
+    def fail(self, node):
+        raise TranslateError(f"{self.where}: {_u(node)[:60]}")
+
+    def as_rat(self, e, t):
+        return e if t == "rat" else f"(({e} : Int) : Rat)" if t == "int" else f"(({e} : Nat) : Rat)" if t == "nat" else None
+
+    def as_int(self, e, t):
+        return e if t == "int" else f"(({e} : Nat) : Int)" if t == "nat" else None
+
+    def gen(self, node, env):
+        """comprehension / generator over one list -> (lean list expr, element type)"""
+        if len(node.generators) != 1 or not isinstance(node.generators[0].target, ast.Name):
+            self.fail(node)
+        g = node.generators[0]
+        v = g.target.id
+        src, st = self.ex(g.iter, env)
+        if st == "listoptint":
+            if len(g.ifs) != 1 or _u(g.ifs[0]) != f"{v} is not None":
+                self.fail(node)
+            src = f"({src}.filterMap id)"
+        elif st == "listint":
+            if g.ifs:
+                self.fail(node)
+        else:
+            self.fail(node)
+        e, t = self.ex(node.elt, dict(env, **{v: "int"}))
+        if isinstance(node.elt, ast.Name) and node.elt.id == v:
+            return src, "int"
+        if t == "nat":
+            e, t = self.as_int(e, t), "int"
+        return f"({src}.map (fun {v} => {e}))", t
+
+    def ex(self, node, env):
+        if isinstance(node, ast.Constant):
+            if node.value is None:
+                return "none", "none"
+            if isinstance(node.value, int) and not isinstance(node.value, bool):
+                return f"({node.value} : Int)", "int"
+            self.fail(node)
+        if isinstance(node, ast.Name):
+            if node.id in env:
+                return _ln(node.id), env[node.id]
+            self.fail(node)
+        if isinstance(node, ast.Call) and isinstance(node.func, ast.Name) and len(node.args) == 1 and not node.keywords:
+            f, a = node.func.id, node.args[0]
+            if f == "len":
+                e, t = self.ex(a, env)
+                if t in ("listint", "listoptint"):
+                    return f"{e}.length", "nat"
+            if f in ("sum", "min", "max"):
+                if isinstance(a, (ast.GeneratorExp, ast.ListComp)):
+                    e, t = self.gen(a, env)
+                else:
+                    e, t = self.ex(a, env)
+                    t = {"listint": "int"}.get(t)
+                if f == "sum" and t == "int":
+                    return f"(pySumInt {e})", "int"
+                if f == "sum" and t == "rat":
+                    return f"(pySumRat {e})", "rat"
+                if f in ("min", "max") and t == "int":
+                    return f"(py{f.capitalize()} {e})", "optint"          # ValueError on an empty list = none
+            self.fail(node)
+        if isinstance(node, ast.ListComp):
+            e, t = self.gen(node, env)
+            if t == "int":
+                return e, "listint"
+            self.fail(node)
+        if isinstance(node, ast.BinOp):
+            if isinstance(node.op, ast.Pow) and isinstance(node.right, ast.Constant) and node.right.value == 2:
+                e, t = self.ex(node.left, env)
+                if t in ("int", "rat"):
+                    return f"({e} ^ 2)", t
+                self.fail(node)
+            l, lt = self.ex(node.left, env)
+            r, rt = self.ex(node.right, env)
+            if isinstance(node.op, ast.Div):
+                a, b = self.as_rat(l, lt), self.as_rat(r, rt)
+                if a and b:
+                    return f"({a} / {b})", "rat"
+            if isinstance(node.op, (ast.Add, ast.Sub)):
+                sym = "+" if isinstance(node.op, ast.Add) else "-"
+                if "rat" in (lt, rt):
+                    a, b = self.as_rat(l, lt), self.as_rat(r, rt)
+                    if a and b:
+                        return f"({a} {sym} {b})", "rat"
+                a, b = self.as_int(l, lt), self.as_int(r, rt)          # nat - k is computed in Int (Python ints)
+                if a and b:
+                    return f"({a} {sym} {b})", "int"
+            self.fail(node)
+        if isinstance(node, ast.IfExp):
+            c = self.cond(node.test, env)
+            a, at = self.ex(node.body, env)
+            b, bt = self.ex(node.orelse, env)
+            a, b, t = self.unify(a, at, b, bt, node)
+            return f"(if {c} then {a} else {b})", t
+        self.fail(node)
+
+    def unify(self, a, at, b, bt, node):
+        if at == bt:
+            return a, b, at
+        for x, xt, y, yt, swap in ((a, at, b, bt, False), (b, bt, a, at, True)):
+            if yt == "none":
+                if xt in ("int", "rat"):
+                    x, xt = f"(some ({x}))", "opt" + xt
+                if xt in ("optint", "optrat"):
+                    return (y, x, xt) if swap else (x, y, xt)
+        self.fail(node)
+
+    def cond(self, node, env):
+        if isinstance(node, ast.Name) and env.get(node.id) in ("listint", "listoptint"):
+            return f"(!{_ln(node.id)}.isEmpty)"
+        if isinstance(node, ast.Compare) and len(node.ops) == 1:
+            l, lt = self.ex(node.left, env)
+            r, rt = self.ex(node.comparators[0], env)
+            a, b = self.as_int(l, lt), self.as_int(r, rt)
+            sym = {ast.LtE: "≤", ast.Lt: "<", ast.GtE: "≥", ast.Gt: ">", ast.Eq: "="}.get(type(node.ops[0]))
+            if a and b and sym:
+                return f"(decide ({a} {sym} {b}))"
+        self.fail(node)
+
+    def ret(self, node, env):
+        if isinstance(node, ast.BinOp) and isinstance(node.op, ast.Pow) and isinstance(node.right, ast.Constant) and node.right.value == 0.5:
+            self.sqrt = True
+            return self.ex(node.left, env)
+        return self.ex(node, env)
+
+    def body(self, stmts, env):
+        """-> [(lean lines, ...)], final (expr, type); straight-line code with `if c: return None` guards"""
+        if not stmts:
+            raise TranslateError(f"{self.where}: path without return")
+        s, rest = stmts[0], stmts[1:]
+        if isinstance(s, ast.Expr) and isinstance(s.value, ast.Constant):
+            return self.body(rest, env)
+        if isinstance(s, ast.Return):
+            e, t = self.ret(s.value, env)
+            return e, t
+        if isinstance(s, ast.Assign) and isinstance(s.targets[0], ast.Name):
+            n = s.targets[0].id
+            e, t = self.ret(s.value, env) if (rest and isinstance(rest[0], ast.Return) and False) else self.ex(s.value, env)
+            r, rt = self.body(rest, dict(env, **{n: t}))
+            return f"let {_ln(n)} := {e}\n  {r}", rt
+        if isinstance(s, ast.If) and not s.orelse and len(s.body) == 1 and isinstance(s.body[0], ast.Return):
+            c = self.cond(s.test, env)
+            a, at = self.ret(s.body[0].value, env)
+            b, bt = self.body(rest, env)
+            a, b, t = self.unify(a, at, b, bt, s)
+            return f"if {c} then {a}\n  else\n  {b}", t
+        self.fail(s)
+
+    def translate(self, fn):
+        args = fn.args
+        names = [a.arg for a in args.args]
+        if not names or names[0] != "vals" or any(n not in ("vals", "d") for n in names) or args.vararg or args.kwarg:
+            raise TranslateError(f"{self.where}: signature")
+        env = {"vals": "listoptint"}
+        if isinstance(fn, ast.Lambda):
+            return self.ret(fn.body, env)
+        return self.body(fn.body, env)
+
+
+_RED = {"sum": "int", "count": "int", "min": "optint", "max": "optint", "mean": "optrat", "stdev": "optrat"}
+_LTYPE = {"int": "Int", "optint": "Option Int", "optrat": "Option Rat"}
+
+
+def _partition_loop(f, tag):
+    """`for i in range(nrows): key = tuple(...); [row_keys[i] = key]; bucket = partition_index.get(key); if bucket is None: ... else: ...`"""
+    loops = [s for s in f.body if isinstance(s, ast.For) and _u(s.iter) == "range(nrows)"]
+    if len(loops) != 1:
+        raise TranslateError(f"{f.name}: partition loop")
+    loop = loops[0]
+    var = _u(loop.target)
+    inits = {_u(s.targets[0]): _u(s.value) for s in f.body if isinstance(s, ast.Assign)}
+    if inits.get("partition_index") != "{}" or inits.get("group_items") != "list(partition_index.items())":
+        raise TranslateError(f"{f.name}: partition_index / group_items")
+    lines, opt = [], set()
+
+    def block(stmts, opt, ind):
+        pad = " " * ind
+        if not stmts:
+            return pad + "partition_index"
+        s, rest = stmts[0], stmts[1:]
+        if isinstance(s, ast.Assign):
+            t, v = _u(s.targets[0]), _u(s.value)
+            if t == "key" and v.startswith("tuple((over_data[") and v.endswith("in range(pk_len)))"):
+                return block(rest, opt, ind)
+            if t == f"row_keys[{var}]" and v == "key":
+                return block(rest, opt, ind)                  # the key list the caller passes in
+            if v == "partition_index.get(key)" and isinstance(s.targets[0], ast.Name):
+                return pad + f"let {t} := Dict.get? partition_index key\n" + block(rest, opt | {t}, ind)
+            if t == "partition_index[key]" and v == f"[{var}]":
+                return pad + f"let partition_index := Dict.upsert partition_index key (fun _ => [{var}])\n" + block(rest, opt, ind)
+        if isinstance(s, ast.Expr) and isinstance(s.value, ast.Call) and isinstance(s.value.func, ast.Attribute) \
+                and s.value.func.attr == "append" and isinstance(s.value.func.value, ast.Name) and _u(s.value.args[0]) == var:
+            n = s.value.func.value.id
+            return (pad + f"let {n} := {n} ++ [{var}]\n" + pad + f"let partition_index := Dict.upsert partition_index key (fun _ => {n})\n"
+                    + block(rest, opt, ind))
+        if isinstance(s, ast.If) and isinstance(s.test, ast.Compare) and isinstance(s.test.left, ast.Name) and s.test.left.id in opt \
+                and isinstance(s.test.comparators[0], ast.Constant) and s.test.comparators[0].value is None:
+            n = s.test.left.id
+            a, b = (s.body, s.orelse) if isinstance(s.test.ops[0], ast.Is) else (s.orelse, s.body)
+            return (pad + f"match {n} with\n" + pad + "| none =>\n" + block(a + rest, opt - {n}, ind + 4) + "\n"
+                    + pad + f"| some {n} =>\n" + block(b + rest, opt - {n}, ind + 4))
+        raise TranslateError(f"{f.name} partition loop: {_u(s)[:60]}")
+
+    return (f"/-- translated from the body of the partition loop `for {var} in range(nrows)` of `Table.{f.name}` -/\n"
+            f"def partitionStepT{tag} {{K : Type}} [DecidableEq K] (partition_index : Dict K (List Nat)) (key : K) ({var} : Nat) :\n"
+            f"    Dict K (List Nat) :=\n" + block(loop.body, set(), 2))
+
+
+def translate_group(src):
+    tree = ast.parse(src)
+    out = ["/-- `sum(xs)` over ints: left fold from 0 -/\ndef pySumInt (xs : List Int) : Int := xs.foldl (· + ·) 0",
+           "/-- `sum(xs)` over exact fractions -/\ndef pySumRat (xs : List Rat) : Rat := xs.foldl (· + ·) 0",
+           "/-- `min(xs)`: the first of equal minima; `none` = ValueError on an empty list -/\n"
+           "def pyMin : List Int → Option Int\n  | [] => none\n  | x :: xs => some (xs.foldl (fun m v => if v < m then v else m) x)",
+           "/-- `max(xs)` -/\n"
+           "def pyMax : List Int → Option Int\n  | [] => none\n  | x :: xs => some (xs.foldl (fun m v => if v > m then v else m) x)"]
+    for meth, tag in (("aggregate", "Agg"), ("window", "Win")):
+        f = find_func(tree, meth, "Table")
+        out.append(_partition_loop(f, tag))
+        for name, want in _RED.items():
+            # the `for col in <name>_over:` loop under `if <name>_over:`
+            loops = [s for s in ast.walk(f) if isinstance(s, ast.For) and _u(s.iter) == f"{name}_over"]
+            if len(loops) != 1:
+                raise TranslateError(f"{meth}: loop over {name}_over")
+            body = loops[0].body
+            if not any(isinstance(c, ast.Constant) and c.value == name for s in body for c in ast.walk(s)):
+                raise TranslateError(f"{meth}: suffix {name!r} not used in its loop")
+            fns = [n for s in body for n in ast.walk(s) if isinstance(n, (ast.Lambda, ast.FunctionDef))]
+            if len(fns) != 1:
+                raise TranslateError(f"{meth}: reducer of {name}")
+            r = _Reducer(f"{meth}/{name}")
+            e, t = r.translate(fns[0])
+            if t in ("int", "rat") and want.startswith("opt"):
+                self_t = t
+                e, t = f"some ({e})", "opt" + self_t
+            if t != want:
+                raise TranslateError(f"{meth}/{name}: result type {t}, expected {want}")
+            if r.sqrt != (name == "stdev"):
+                raise TranslateError(f"{meth}/{name}: square root")
+            out.append(f"/-- translated from the `{name}` reducer of `Table.{meth}`" + (" without its final `** 0.5`" if r.sqrt else "") + " -/\n"
+                       f"def {name}T{tag} (vals : List (Option Int)) : {_LTYPE[want]} :=\n  {e}")
+    return out
